@@ -145,6 +145,7 @@ func (server *httpServer) handleHttpRequest(conn net.Conn) string {
 		return answer(httpOk+jsonContentType, message)
 	}
 	conn.SetReadDeadline(time.Now().Add(httpReadTimeout))
+	section := 0
 	scanner := bufio.NewScanner(conn)
 	scanner.Split(func(data []byte, atEOF bool) (int, []byte, error) {
 		found := bytes.Index(data, []byte(crlf))
@@ -152,13 +153,15 @@ func (server *httpServer) handleHttpRequest(conn net.Conn) string {
 			token := data[:found+len(crlf)]
 			return len(token), token, nil
 		}
-		if atEOF || len(body)+len(data) >= contentLength {
+		// The request line and the headers end with CRLF. Wait for the rest of
+		// the line if it has not arrived yet; only the body is delimited by
+		// its length.
+		if atEOF || section == 2 && len(body)+len(data) >= contentLength {
 			return 0, data, bufio.ErrFinalToken
 		}
 		return 0, nil, nil
 	})
 
-	section := 0
 	for scanner.Scan() {
 		text := scanner.Text()
 		switch section {
